@@ -59,3 +59,35 @@ from bisturi.field import Int, Data, Bits, Ref, Em
 from bisturi.descriptor import Auto, AutoLength
 import re
 """
+
+
+def visible_fields(pkt):
+    """names of the value-bearing attributes of a packet, found without relying on bisturi internals: the public
+    names in __slots__ along the MRO, plus class-level data descriptors that are not slot members (fields replaced by
+    an Auto-like descriptor). Falls back to get_fields() for classes without __slots__."""
+    cls = type(pkt)
+    names = []
+    seen = set()
+    found_slots = False
+    for k in reversed(cls.__mro__):
+        sl = k.__dict__.get("__slots__")
+        if sl is None:
+            continue
+        found_slots = True
+        for n in ([sl] if isinstance(sl, str) else sl):
+            if not n.startswith("_") and n not in seen:
+                seen.add(n)
+                names.append(n)
+    if not found_slots:
+        return [n for n, *_ in pkt.get_fields() if not n.startswith("_")]
+    for k in reversed(cls.__mro__):
+        if k is object:
+            continue
+        for n, v in k.__dict__.items():
+            if n.startswith("_") or n in seen or isinstance(v, (types.MemberDescriptorType, types.FunctionType, classmethod, staticmethod, property)):
+                continue
+            tv = type(v)
+            if hasattr(tv, "__get__") and hasattr(tv, "__set__"):
+                seen.add(n)
+                names.append(n)
+    return names
